@@ -2,7 +2,7 @@ TYPES = "server/store/types"
 
 PROPS["C05"] = prop(
     "exploration",
-    "exhaustive enumeration of all 256 sets / 65 536 pairs + rapid-generated mode and delta strings against an 8-bit set reference model; rapid-generated permission-change histories on a running server where every {pres what=acs} difference is applied to the stored permissions before the step and compared with the stored permissions after it; thorough tier: the same generators and oracles also run under Go's native coverage-guided fuzzer (rapid.MakeFuzz, 60 s per target, all cores)",
+    "exhaustive enumeration of all 256 sets / 65 536 pairs + rapid-generated mode and delta strings against an 8-bit set reference model; rapid-generated permission-change histories on a running server where every {pres what=acs} difference is applied to the stored permissions before the step and compared with the stored permissions after it; thorough tier: the same generators and oracles also run under Go's native coverage-guided fuzzer (rapid.MakeFuzz, 60 s per target, all cores); after seeded round 6: P2P participant invited back after unsubscribing, description of an unloaded topic for a non-default mode, runes which case-fold to mode letters",
     "exhaustive unit: every set and every ordered pair is one case (all non-trivial); string unit: rapid strings <= 8 runes over the mode alphabet, signs, N and junk, "
     "non-trivial = contains a valid letter and one of {N, sign, junk}; distinct = distinct (start, string) by FNV-64; notification unit: program = c06 permission histories (grants, own-mode changes, transfers, evictions, re-subscriptions) with sessions attached to 'me', non-trivial = >=2 notifications in +/- form and >=1 in absolute form judged",
     "All 256 permission sets and all 65 536 (old,new) pairs are enumerated (round trip through text/JSON/SQL forms, Delta/ApplyDelta/ApplyMutation); "
